@@ -48,6 +48,15 @@ def gen(path):
                 if code[:mm.start()].count('"')%2==1: continue
                 nl=code[:mm.start()]+rep+code[mm.end():]
                 out.append((path,i,cur,l,nl,"%s->%s"%(pat,rep)))
+        if WAVE==3:
+            out=[o for o in out if o[0]!=path or o[1]!=i]
+            if i+1 < len(src):
+                n=src[i+1]
+                simple=lambda t: t.strip() and not t.strip().startswith(("//","}","return","if ","for ","switch","case ","default","func ","var (",")","else","go ")) and not t.rstrip().endswith(("{","(",","))
+                ind=lambda t: len(t)-len(t.lstrip())
+                if simple(l) and simple(n) and ind(l)==ind(n) and l.strip()!=n.strip():
+                    out.append((path,i,cur,l+" / "+n.strip(),n+"\n"+l,"swap-adjacent"))
+            continue
         if WAVE==2:
             out=[o for o in out if o[0]!=path or o[1]!=i]  # wave 2: only the additional operators on this line
             for pat,rep in MUTS2:
@@ -66,7 +75,9 @@ def run(job):
     idx,(path,line,fn,old,new,kind)=job
     sc="/tmp/sweep_%d"%idx; outd=sc+"_out"
     sh("rm -rf %s %s; mkdir -p %s; rsync -a --exclude .git /repo/ %s/"%(sc,outd,outd,sc))
-    src=open(sc+"/"+path).read().split("\n"); src[line]=new; open(sc+"/"+path,"w").write("\n".join(src))
+    src=open(sc+"/"+path).read().split("\n"); src[line]=new
+    if kind=="swap-adjacent": src[line+1]=""
+    open(sc+"/"+path,"w").write("\n".join(src))
     res={"file":path,"line":line+1,"func":fn,"kind":kind,"old":old.strip(),"new":new.strip()}
     b=sh("cd %s && %s go build ./... 2>&1 | head -3"%(sc,E))
     if b.stdout.strip():
@@ -96,7 +107,7 @@ def run(job):
     sh("rm -rf %s %s"%(sc,outd)); return res
 if __name__=="__main__":
     flt=sys.argv[1]; jobs=4
-    WAVE=2 if "--wave2" in sys.argv else 1
+    WAVE=2 if "--wave2" in sys.argv else (3 if "--wave3" in sys.argv else 1)
     if "--jobs" in sys.argv: jobs=int(sys.argv[sys.argv.index("--jobs")+1])
     CONTRACTED=contracts()
     PROPS=json.load(open('/verif/contracts/properties.json'))
@@ -105,7 +116,7 @@ if __name__=="__main__":
         if flt in f: allm+=gen(f)
     allm=[m for m in allm if any(c==m[2] or c.startswith(m[2]+"$") for c in CONTRACTED)]
     print(len(allm),"mutants in functions under contract",flush=True)
-    outp="/verif/work/sweep%s_%s.jsonl"%("2" if WAVE==2 else "",re.sub(r"\W","_",flt))
+    outp="/verif/work/sweep%s_%s.jsonl"%({1:"",2:"2",3:"3"}[WAVE],re.sub(r"\W","_",flt))
     with open(outp,"w") as fo, cf.ThreadPoolExecutor(jobs) as ex:
         for r in ex.map(run,enumerate(allm)):
             fo.write(json.dumps(r)+"\n"); fo.flush()
